@@ -92,6 +92,8 @@ def parse_use_tree(text):
 
 USE_DECL = re.compile(r"(?m)^([ \t]*)((?:pub(?:\([^)]*\))?[ \t]+)?)use\s+([^;]*?);")
 INLINE = re.compile(r"(?<![A-Za-z0-9_:])(?:::)?std::sync::(Mutex|RwLock|atomic)\b")
+# Arc's reference-count inspecting associated functions, however `Arc` was imported
+ARC_FN = re.compile(r"(?<![A-Za-z0-9_])(?:(?:::)?std::sync::)?Arc::(strong_count|weak_count|get_mut|make_mut|try_unwrap|into_inner)\s*\(")
 
 
 def redirect(path):
@@ -131,6 +133,7 @@ def rewrite_use(m):
 def rewrite_source(text):
     text = USE_DECL.sub(rewrite_use, text)
     text = INLINE.sub(lambda m: SHIM + "::" + m.group(1), text)
+    text = ARC_FN.sub(lambda m: SHIM + "::arc::" + m.group(1) + "(", text)
     return text
 
 
@@ -197,6 +200,7 @@ if __name__ == "__main__":
             "    static X: std::sync::Mutex<u8> = std::sync::Mutex::new(0);",
             "use std::sync::Arc;",
             "use std::sync::{self, Arc};",
+            "if Arc::strong_count(&self.scratch) == 1 { let x = std::sync::Arc::make_mut(&mut a); }",
         ]
         for s in samples:
             print(repr(s), "->", repr(rewrite_source(s)))
